@@ -689,43 +689,72 @@ func r208(c *an.Ctx) {
 	const rule = "R20.8"
 	// modepb relativeAdjustment: values[newI] with newI = rem(i+adj, len) adjusted by +len when negative
 	// wrapShape: idx is `r` or phi(r, L+r) with r = (...) % L and the sum chosen exactly under r < 0
+	// wrapShape: every value that can arrive as the index is a constant, a remainder `r = (...) % L` arriving only where
+	// r is known not to be negative, or `L + r` arriving only where r < 0 - whether the choice is made by a phi, by
+	// returns of a helper, or by a variable assigned under conditions (an.PhiLeaves gives each value with its conditions)
 	wrapShape := func(idx ssa.Value, isLen func(ssa.Value) bool) (okMod, okNeg, found bool) {
-		idx = stripIntConv(idx)
-		phi, isPhi := idx.(*ssa.Phi)
-		var rem *ssa.BinOp
-		if isPhi {
-			for _, e := range phi.Edges {
-				if bo, ok := stripIntConv(e).(*ssa.BinOp); ok && bo.Op == token.REM {
-					rem = bo
+		okMod, okNeg = true, true
+		signOf := func(conds []an.CondEdge, rem ssa.Value) (neg, nonNeg bool) {
+			for _, g := range conds {
+				bo, ok := g.If.Cond.(*ssa.BinOp)
+				if !ok {
+					continue
+				}
+				k, isC := an.ConstInt(bo.Y)
+				if !isC || k != 0 || !(stripIntConv(bo.X) == rem || an.SameValues(stripIntConv(bo.X), rem)) {
+					continue
+				}
+				switch bo.Op {
+				case token.LSS:
+					neg, nonNeg = neg || g.Branch, nonNeg || !g.Branch
+				case token.GEQ:
+					neg, nonNeg = neg || !g.Branch, nonNeg || g.Branch
 				}
 			}
-		} else if bo, ok := idx.(*ssa.BinOp); ok && bo.Op == token.REM {
-			rem = bo
+			return
 		}
-		if rem == nil {
-			return false, false, false
-		}
-		okMod = isLen(rem.Y)
-		if isPhi {
-			for i, e := range phi.Edges {
-				add, ok := stripIntConv(e).(*ssa.BinOp)
-				if !ok || add.Op != token.ADD {
-					continue
+		for _, lf := range an.PhiLeaves(idx) {
+			v := stripIntConv(lf.Val)
+			bo, isBo := v.(*ssa.BinOp)
+			switch {
+			case isBo && bo.Op == token.REM:
+				found = true
+				if !isLen(bo.Y) {
+					okMod = false
 				}
-				if !((isLen(add.X) && stripIntConv(add.Y) == ssa.Value(rem)) || (isLen(add.Y) && stripIntConv(add.X) == ssa.Value(rem))) {
-					continue
+				if _, nonNeg := signOf(lf.Conds, bo); !nonNeg {
+					okNeg = false
 				}
-				pred := phi.Block().Preds[i]
-				for _, g := range an.GuardingEdges(pred.Instrs[0]) {
-					if bo, ok := g.If.Cond.(*ssa.BinOp); ok && bo.Op == token.LSS && g.Branch && stripIntConv(bo.X) == ssa.Value(rem) {
-						if k, isC := an.ConstInt(bo.Y); isC && k == 0 {
-							okNeg = true
+			case isBo && bo.Op == token.ADD:
+				var rem *ssa.BinOp
+				if r, ok := stripIntConv(bo.Y).(*ssa.BinOp); ok && r.Op == token.REM && isLen(bo.X) {
+					rem = r
+				} else if r, ok := stripIntConv(bo.X).(*ssa.BinOp); ok && r.Op == token.REM && isLen(bo.Y) {
+					rem = r
+				}
+				// `i %= n` assigned to the parameter and read back: the operand is the phi/param web of the remainder
+				if rem == nil {
+					for _, side := range []ssa.Value{bo.X, bo.Y} {
+						for _, l2 := range an.PhiLeaves(side) {
+							if r, ok := stripIntConv(l2.Val).(*ssa.BinOp); ok && r.Op == token.REM {
+								rem = r
+							}
 						}
 					}
 				}
+				if rem == nil {
+					continue
+				}
+				found = true
+				if !isLen(rem.Y) {
+					okMod = false
+				}
+				if neg, _ := signOf(lf.Conds, rem); !neg {
+					okNeg = false
+				}
 			}
 		}
-		return okMod, okNeg, true
+		return okMod, okNeg, found
 	}
 	if top := mustFunc(c, rule, "pkg/trait/modepb", "ModelServer", "relativeAdjustment"); top != nil {
 		n := 0
@@ -736,34 +765,14 @@ func r208(c *an.Ctx) {
 					return
 				}
 				isLenOf := func(v ssa.Value) bool {
-					cl, ok := stripIntConv(v).(*ssa.Call)
-					return ok && an.CalleeName(cl) == "builtin len" && an.SameValue(cl.Call.Args[0], ia.X)
-				}
-				okMod, okNeg, found := wrapShape(ia.Index, isLenOf)
-				if !found {
-					// the wrap-around may live in a helper the rules have not seen: index = helper(i, adjustment, len(values))
-					if call, isCall := stripIntConv(ia.Index).(*ssa.Call); isCall {
-						if h := call.Call.StaticCallee(); h != nil && len(h.Blocks) > 0 && h.Package() == fn.Package() && !an.KnownFunc(an.FuncQName(h)) {
-							for pi, p := range h.Params {
-								if pi >= len(call.Call.Args) || !isLenOf(call.Call.Args[pi]) {
-									continue
-								}
-								isP := func(v ssa.Value) bool { return stripIntConv(v) == ssa.Value(p) }
-								okAll, any := true, false
-								for _, r := range an.Returns(h) {
-									m, ng, f := wrapShape(r.Results[0], isP)
-									any = any || f
-									if !f || !m || !ng {
-										okAll = false
-									}
-								}
-								if any {
-									okMod, okNeg, found = okAll, okAll, true
-								}
-							}
+					for _, s0 := range an.Sources(stripIntConv(v)) {
+						if cl, ok := stripIntConv(s0).(*ssa.Call); ok && an.CalleeName(cl) == "builtin len" && (an.SameValue(cl.Call.Args[0], ia.X) || an.SameValues(cl.Call.Args[0], ia.X)) {
+							return true
 						}
 					}
+					return false
 				}
+				okMod, okNeg, found := wrapShape(ia.Index, isLenOf)
 				if !found {
 					return
 				}
@@ -778,8 +787,24 @@ func r208(c *an.Ctx) {
 		c.SawFunc(an.FuncName(top))
 	}
 	// fanspeed DeriveValues: presets[newVal.PresetIndex] after clamping on both sides
-	if fn := mustFunc(c, rule, "pkg/trait/fanspeedpb", "Model", "DeriveValues"); fn != nil {
+	if top := mustFunc(c, rule, "pkg/trait/fanspeedpb", "Model", "DeriveValues"); top != nil {
 		n := 0
+		isPresetIndexing := func(in ssa.Instruction) bool {
+			ia, ok := in.(*ssa.IndexAddr)
+			if !ok {
+				return false
+			}
+			load, ok := stripIntConv(ia.Index).(*ssa.UnOp)
+			if !ok || load.Op != token.MUL {
+				return false
+			}
+			_, _, f, isF := an.FieldOf(load.X)
+			return isF && f == "PresetIndex"
+		}
+		fn := an.BodyWith(top, isPresetIndexing) // the derivation may have moved into a helper
+		if fn == nil {
+			fn = top
+		}
 		an.Instrs(fn, func(in ssa.Instruction) {
 			ia, ok := in.(*ssa.IndexAddr)
 			if !ok {
@@ -839,13 +864,13 @@ func r208(c *an.Ctx) {
 					}
 				}
 			})
-			c.Check(hi && lo, rule, an.FuncName(fn)+"|the preset index is clamped to [0, len-1] before indexing", ia.Pos(), "",
+			c.Check(hi && lo, rule, an.FuncName(top)+"|the preset index is clamped to [0, len-1] before indexing", ia.Pos(), "",
 				"m.presets[PresetIndex] is indexed without clamping the (client-supplied, possibly relative) index on both sides first: an index below zero or beyond the last preset panics instead of selecting the first/last preset")
 		})
 		if n == 0 {
-			c.Unk(rule, an.FuncName(fn)+"|the preset index is clamped to [0, len-1] before indexing", fn.Pos(), "m.presets[PresetIndex] not found")
+			c.Unk(rule, an.FuncName(top)+"|the preset index is clamped to [0, len-1] before indexing", top.Pos(), "m.presets[PresetIndex] not found")
 		}
-		c.SawFunc(an.FuncName(fn))
+		c.SawFunc(an.FuncName(top))
 	}
 }
 
